@@ -39,7 +39,7 @@ def run_workers(reqs, n):
     data = "\n".join(json.dumps(r) for r in reqs) + "\n"
     procs = []
     for i in range(n):
-        env = dict(os.environ, PYTHONHASHSEED=str(i * 7919 + 1), C11_NOISE=str(i), PYTHONPATH="/repo/src:/repo/tests:" + HERE)
+        env = dict(os.environ, PYTHONHASHSEED=str(i * 7919 + 1), C11_NOISE=str(i), PYTHONPATH=os.environ.get("VERIF_REPO", "/repo") + "/src:" + os.environ.get("VERIF_REPO", "/repo") + "/tests:" + HERE)
         procs.append(subprocess.Popen(["/venv/bin/python", os.path.join(HERE, "c11_worker.py")], stdin=subprocess.PIPE,
                                       stdout=subprocess.PIPE, stderr=subprocess.DEVNULL, text=True, env=env))
     for p in procs:
